@@ -374,6 +374,15 @@ func c15eval(cas c15case) *Violation {
 		if int(w.l.Level()) != int(effLevel) {
 			return mk("option-level", fmt.Sprintf("underlying logger level is %s, expected %s", levelName(w.l.Level()), levelName(effLevel)))
 		}
+		// the same handler is asked again after the process-wide debug mode changed (it is switched by SetLevel(Debug) on ANY logger)
+		slog.VerifRestoreModes(!cas.Debug, false)
+		got2 := w.h.Enabled(ctx, logslog.Level(cas.SlogLvl))
+		under2 := w.l.Enabled(ns)
+		ref2, fixed2 := refAdmit(effLevel, ns, !cas.Debug, nil)
+		slog.VerifRestoreModes(cas.Debug, false)
+		if got2 != under2 || fixed2 && got2 != ref2 {
+			return mk("enabled-after-debug-mode-change", fmt.Sprintf("after debug mode became %v: Handler.Enabled(%d)=%v, underlying logger %v, reference %v", !cas.Debug, cas.SlogLvl, got2, under2, ref2))
+		}
 		return nil
 	case "EntryLog":
 		pan := catch(func() { w.l.Log(ctx, logslog.Level(cas.SlogLvl), msg, "k", 1) })
@@ -622,6 +631,32 @@ func c15eval(cas c15case) *Violation {
 			}
 		}
 		c15last = w.rec.events[0].Payload
+		return nil
+	}
+	if cas.Layer == "L4e-nosource-handler-and-another-logger" {
+		// a handler without source info is in the middle of a record (a value logs on ANOTHER logger while it is
+		// formatted): the other logger's record keeps its caller field - caller info is switched on process-wide
+		hn := slog.NewSlogHandler(w.l, &slog.HandlerOptions{NoColor: cas.Format != "color", JSON: cas.Format == "json", NoSource: true})
+		slog.AddFlags(slog.Lcaller)
+		orec := &recorder{}
+		other := slog.New("other-logger").SetWriter(&plainW{"o", orec}).SetErrorWriter(&plainW{"o", orec}).SetLevel(slog.AlwaysLevel).SetJSONMode(true)
+		outer := logslog.NewRecord(tsZone, logslog.LevelError, msg, 0)
+		outer.AddAttrs(logslog.Int("b", 1), logslog.Any("c", reentFn{func() { other.Info("inner record of another logger") }, "sea"}), logslog.Int("d", 4))
+		if pan := catch(func() { _ = hn.Handle(ctx, outer) }); pan != "" {
+			return mk("call-returns", firstLine(pan))
+		}
+		if len(orec.events) != 1 {
+			return mk("emitted-once", fmt.Sprintf("the other logger wrote %d records", len(orec.events)))
+		}
+		if obj, err := jsonx.DecodeLine([]byte(orec.events[0].Payload)); err != nil {
+			return mk("decodable", err.Error())
+		} else if _, ok := obj.Get("caller"); !ok {
+			return mk("other-logger-unaffected", fmt.Sprintf("a record of another logger, written while the no-source handler was formatting, lost its caller field: %.250q", orec.events[0].Payload))
+		}
+		if !slog.IsAnyBitsSet(slog.Lcaller) {
+			return mk("other-logger-unaffected", "the process-wide caller flag is off after the no-source handler handled a record")
+		}
+		c15last = orec.events[0].Payload
 		return nil
 	}
 	if cas.Layer == "L4d-reentrant" {
@@ -890,6 +925,7 @@ func c15cases(thorough bool, emit func(c15case)) {
 	for _, f := range formats {
 		emit(c15case{Layer: "L2b-empty-attr-between", Format: f, LogLevel: int(slog.TraceLevel), SlogLvl: 4, Via: "Handle"})
 		emit(c15case{Layer: "L2c-many-attrs-with-duplicate", Format: f, LogLevel: int(slog.TraceLevel), SlogLvl: 4, Via: "Handle"})
+		emit(c15case{Layer: "L4e-nosource-handler-and-another-logger", Format: f, LogLevel: int(slog.TraceLevel), SlogLvl: 8, Via: "Handle"})
 		emit(c15case{Layer: "L4w-level-writer", Format: f, LogLevel: int(slog.TraceLevel), SlogLvl: 4, Via: "Handle"})
 		for _, ch := range chains {
 			emit(c15case{Layer: "L4w-level-writer", Format: f, LogLevel: int(slog.TraceLevel), SlogLvl: 4, Chain: ch, Via: "Handle"})
